@@ -7,6 +7,6 @@ os.makedirs(d, exist_ok=True)
 shutil.copy(f'/tmp/{pid}_seed{n}.diff', d + '/patch.diff')
 shutil.copy(f'/tmp/{pid}_seed{n}_demo.rs', d + '/demo.rs')
 json.dump({"property": pid, "breaks": breaks, "needs_to_manifest": needs,
-           "produced_by": "independent sub-agent that saw only the property text and a scratch worktree of /repo (round 2: asked for subtle, off-centre changes)",
+           "produced_by": "independent sub-agent that saw only the property text and a scratch worktree of /repo (round " + (sys.argv[5] if len(sys.argv) > 5 else "2") + ": asked for subtle, off-centre changes)",
            "verification": "see verified.txt (output of ./seedverify.sh)"}, open(d + '/meta.json', 'w'), indent=1)
 print(d)
